@@ -657,18 +657,21 @@ def run(tier):
         stats[f"{t['transport']}/{'+'.join(faults)}/{out}"] += 1
     v.extra["mboot_outcomes"] = dict(sorted(stats.items()))
 
-    # ---- canary
-    good = next(t for t in traces if t["id"].startswith("nf-") and any(e["op"] == "read_memory" for e in t["ev"]) and t["ev"][-1]["dataLen"] > 40)
-    bad = json.loads(json.dumps(good))
-    bad["id"] = "canary-bad"
-    bad["ev"][-1]["dataLen"] -= 32  # a short read reported with status 0
-    bad["ev"][-1]["dataExact"] = False
-    rej, _ = tlc.tv("C10", "MbootTrace", [strip(good), strip(bad)])
-    if set(rej) != {"canary-bad"}:
-        raise Machinery(f"canary failed: rejected {sorted(rej)}")
-    v.extra["canary"] = "fault-free read accepted; the same trace with a short read and status 0 rejected"
-
     rej, res = tlc.tv("C10", "MbootTrace", [strip(t) for t in traces], heap="8g", timeout=1200)
+
+    # ---- canary on a trace the spec ACCEPTED (a trace of the real code that the spec rejects is a violation of this run, never a machinery failure)
+    good = next((t for t in traces if t["id"] not in rej and t["id"].startswith("nf-") and any(e["op"] == "read_memory" for e in t["ev"]) and t["ev"][-1]["dataLen"] > 40), None)
+    if good is not None:
+        bad = json.loads(json.dumps(good))
+        bad["id"] = "canary-bad"
+        bad["ev"][-1]["dataLen"] -= 32  # a short read reported with status 0
+        bad["ev"][-1]["dataExact"] = False
+        crej, _ = tlc.tv("C10", "MbootTrace", [strip(good), strip(bad)])
+        if set(crej) != {"canary-bad"}:
+            raise Machinery(f"canary failed: rejected {sorted(crej)}")
+        v.extra["canary"] = "fault-free read accepted; the same trace with a short read and status 0 rejected"
+    else:
+        v.extra["canary"] = "skipped: no fault-free read of the real code was accepted by the spec (reported as violations)"
     v.traces(len(traces))
     by = {t["id"]: t for t in traces}
     for tid, (matched, length, evname) in rej.items():
@@ -724,15 +727,16 @@ def sdp_part(v, tier, r):
     v.count(len(traces))
     for t in traces:
         v.nontrivial(json.dumps(t["job"]))
-    good = next(t for t in traces if t["job"][2] == "read" and t["job"][5] == "none" and t["ev"][-1]["dataLen"] > 4 and not t["job"][4])
-    bad = json.loads(json.dumps(good))
-    bad["id"] = "sdp-canary-bad"
-    bad["ev"][-1]["dataLen"] -= 3
-    bad["ev"][-1]["dataExact"] = False
-    rej, _ = tlc.tv("C10", "SdpTrace", [{"id": x["id"], "ev": x["ev"]} for x in (good, bad)])
-    if set(rej) != {"sdp-canary-bad"}:
-        raise Machinery(f"SDP canary failed: rejected {sorted(rej)}")
     rej, _ = tlc.tv("C10", "SdpTrace", [{"id": t["id"], "ev": t["ev"]} for t in traces], heap="4g")
+    good = next((t for t in traces if t["id"] not in rej and t["job"][2] == "read" and t["job"][5] == "none" and t["ev"][-1]["dataLen"] > 4 and not t["job"][4]), None)
+    if good is not None:
+        bad = json.loads(json.dumps(good))
+        bad["id"] = "sdp-canary-bad"
+        bad["ev"][-1]["dataLen"] -= 3
+        bad["ev"][-1]["dataExact"] = False
+        crej, _ = tlc.tv("C10", "SdpTrace", [{"id": x["id"], "ev": x["ev"]} for x in (good, bad)])
+        if set(crej) != {"sdp-canary-bad"}:
+            raise Machinery(f"SDP canary failed: rejected {sorted(crej)}")
     v.traces(len(traces))
     by = {t["id"]: t for t in traces}
     for tid, (matched, length, evname) in rej.items():
